@@ -85,11 +85,18 @@ func execAr(vec J, out *Writer) {
 		steps, entries, p := iterateAr(b, true)
 		// readers of earlier members stay valid after the iterator has advanced
 		late := []interface{}{}
-		for _, e := range entries {
-			e.Data.Seek(0, io.SeekStart)
-			d, _ := io.ReadAll(e.Data)
-			late = append(late, BB(d))
-		}
+		func() {
+			defer func() {
+				if r := recover(); r != nil {
+					p = fmt.Sprint(r)
+				}
+			}()
+			for _, e := range entries {
+				e.Data.Seek(0, io.SeekStart)
+				d, _ := io.ReadAll(e.Data)
+				late = append(late, BB(d))
+			}
+		}()
 		out.Put(J{"ev": "ar", "in": vec, "steps": steps, "late": late, "panic": p != ""})
 	case "arraw":
 		b := []byte(S(vec["bytes"]))
